@@ -141,6 +141,9 @@ def _strategy(draw):
                                 terms.append([func, _num(draw)])
                             else:
                                 terms.append([func, _num(draw), _num(draw)])
+                        if sec == "dihedrals" and func == "9" and len(terms) >= 2 and draw(st.integers(0, 3)) == 0:
+                            # the same line twice: two equal terms of a multi-term dihedral type add up
+                            terms.insert(draw(st.integers(0, len(terms))), list(draw(st.sampled_from(terms))))
                         if any(e["key"] == k for e in tables[sec]):
                             continue
                         tables[sec].append({"key": k, "terms": terms,
